@@ -2,6 +2,7 @@ package ftdc
 
 import (
 	"context"
+	"github.com/mongodb/ftdc/verifhook"
 	"io"
 	"time"
 
@@ -141,6 +142,7 @@ func (iter *matrixIterator) worker(ctx context.Context) {
 			}
 		}
 
+		verifhook.Point("matrix.send")
 		select {
 		case iter.pipe <- iteratorItem{document: doc, metadata: chunk.GetMetadata()}:
 			continue
